@@ -2049,20 +2049,30 @@ func (t *IntersectionType) Equal(other Type) bool {
 		return false
 	}
 
-	intersectionSet := t.IntersectionSet()
-	otherIntersectionSet := otherType.IntersectionSet()
+	// Intersection types are sets: they are equal if they have equal members, regardless of order.
+	// Members are compared with Equal, not by identity (the intersection set is keyed by identity,
+	// so it cannot be used here): two composite or interface types with the same location and
+	// qualified identifier are equal, even if they are distinct objects,
+	// e.g. when one of the intersection types was decoded.
 
-	if len(intersectionSet) != len(otherIntersectionSet) {
-		return false
-	}
+	return typesContainedIn(t.Types, otherType.Types) &&
+		typesContainedIn(otherType.Types, t.Types)
+}
 
-	for typ := range intersectionSet { //nolint:maprange
-		_, ok := otherIntersectionSet[typ]
-		if !ok {
+// typesContainedIn returns true if each of the given types is equal to one of the other types.
+func typesContainedIn(types []Type, otherTypes []Type) bool {
+	for _, typ := range types {
+		found := false
+		for _, otherType := range otherTypes {
+			if typ.Equal(otherType) {
+				found = true
+				break
+			}
+		}
+		if !found {
 			return false
 		}
 	}
-
 	return true
 }
 
